@@ -20,7 +20,8 @@ CHECKS = {
              "on every dataclass of L; F framing by loop specialisation of the command/response walkers with L: fields decoded per (tag, "
              "response code) variant, area tables and keys, byte-sized session area, encryption flag provenance, header-only "
              "failed responses; W10 (= C05-E3) the pump's one silent return is restricted to the command/response stream, so no "
-             "root event of a top-level decode is swallowed. Event values for concrete bytes are not decided.",
+             "root event of a top-level decode is swallowed; W11 payload-kind table of the size-prefixed walker; W12 no discarded "
+             "generators; W13 (= C04-V4) every member of a named range is a member. Event values for concrete bytes are not decided.",
         note="trusted: CPython ast; E1 model (guards G1-G7); semantics of int.from_bytes, dataclasses.fields order and generators.",
         technique="pinned table snapshot + decision-list evaluation over all type descriptors + partial evaluation / def-use rules on the walkers",
         design="4/C01",
@@ -51,7 +52,10 @@ CHECKS = {
              "byte-sized-array walker which closes it. R2 the charge dominates the first byte request in the primitive walker "
              "with the same size; R3 only the primitive walker and consume_bytes request bytes; R4 every recursive call "
              "threads size_constraints; R5 error construction sites/arguments and the accounting shape of the constraint "
-             "classes. The size arithmetic itself (>, ==, exceeded_by, earliest point) is not decided.",
+             "classes; R6 counts are never tested by truthiness; R7 error details and skip amounts as linear forms; R8 outcome "
+             "tables of bytes_parsed / assert_done over their path summaries (closed -> obsolete error; armed and counted + size > "
+             "limit -> anticipated error / retire, skip the rest, exceeded error; close quiet iff counted == limit); R9 no "
+             "generator of the decode core is created and discarded. Concrete sizes are not computed.",
         note="trusted: CPython ast; L (E1). Comparisons on runtime integers are deliberately not pattern-matched.",
         technique="partial evaluation (loop specialisation) + typestate over abstract traces, CFG dominance, who-may-call rules",
         design="4/C03",
@@ -64,7 +68,8 @@ CHECKS = {
              "no raise is reachable after the event; the error classes store the constraint/value they are given; V2 the error's path/type/value/valid "
              "set by def-use; V3 who-may-convert: int.from_bytes and raw byte requests occur only in the primitive walker; "
              "V4 the membership chain (_INT.is_valid, ValidValues.__contains__/get, NamedRange, enum class membership) has "
-             "the membership meaning; V5 valid-value and naming facets of all 719 pinned types (exhaustive); V6 unknown "
+             "the membership meaning - decided as decision tables over path summaries, NamedRange as an abstract data type (the "
+             "constructor's bindings substituted into the observers' conditions: member exactly for start <= n < end); V5 valid-value and naming facets of all 719 pinned types (exhaustive); V6 unknown "
              "command code -> ValueConstraintViolatedError with ValidValues(TPM_CC). The iff over concrete values is not decided.",
         note="trusted: CPython ast; E1 model (guards G1-G7); 'first offending field' relies on C01-W4 ordering.",
         technique="CFG dominance + def-use + who-may-call rule + pinned valid-value tables",
@@ -94,7 +99,7 @@ CHECKS = {
              "every call site, dead by its own guard, or discharged by a rule re-evaluated on the current tree from L "
              "(C20 T1-T5, W1), the specialised traces (C03-R1, C01-F), the pump typestate (C10-T1) or call-site shapes; an "
              "undischarged site is reported with its input dependence; encrypted() is folded over all parameter areas of L and "
-             "must not raise on any. X2 termination: acyclic type graph, messages and "
+             "must not raise on any; X3 every resolvable call in the decode core matches its callee's signature. X2 termination: acyclic type graph, messages and "
              "byte-sized list elements consume >= 1 byte, only bounded data-driven loop forms, one pull per pump iteration.",
         note="trusted: CPython ast; L (E1). Implicit failures outside the closed idiom list (e.g. a TypeError from an operator on "
              "an unexpected object) are not excluded - no untyped-Python static analysis can. Open finding K2 is listed in "
@@ -152,7 +157,7 @@ CHECKS = {
              "iterator is the canonical one-byte pull or a remaining-bytes attach; the primitive walker emits its event "
              "with no byte request in between. T2: the buffer parameters of the pump and of the three lazy front-end "
              "scanners are used only through iter()/next() (except inside raise). T3: the processor never receives the "
-             "buffer or iterator. T5 (= C05-E3): the empty prefix of a non-stream decode reports depletion like every other "
+             "buffer or iterator. T6: a scanner starts one traversal of its raw source only (bytes / lists restart). T5 (= C05-E3): the empty prefix of a non-stream decode reports depletion like every other "
              "prefix. This is the structural core of the property; concrete pull counts are its dynamic view.",
         note="trusted: CPython ast; Python iterator/generator protocol. pcapng.marshal materialises its input by design (documented in the code) and is outside T2.",
         technique="CFG + typestate abstract interpretation of the pump, who-may-use rules on iterator/buffer variables",
@@ -166,7 +171,7 @@ CHECKS = {
              "decoder's; A4 both directions build tpm_type(**values) by field name, resolve area layouts through the decoder's "
              "tables and keys, recognise encrypted areas by TPM2B_ENCRYPTED_PARAM's field names, remember a Response's command "
              "code; A5 sibling rule: every node the decoder announces with an event but returns as None is mapped to None by "
-             "the events->object builder too. A1-A5 are decided on path summaries (hidden / marker / list parent / value per field "
+             "the events->object builder too; A7 (= C01-W7) a union arm without payload decodes to None. A1-A5 are decided on path summaries (hidden / marker / list parent / value per field "
              "as a decision list), not on the text of the branches. These are necessary conditions; the round trips themselves are not decided.",
         note="trusted: CPython ast; L (E1); dataclass equality semantics.",
         technique="agreement (sibling) rules between decoder traces, the static layout model and the two converters",
@@ -178,7 +183,8 @@ CHECKS = {
              "method-name resolution, ~70 functions): no global/nonlocal, no attribute/item store or mutating call whose "
              "receiver is a module-level or class-level object; P2 every memoising decorator in reachable code is unbounded or "
              "has capacity >= the key space from L (234 parameter areas); P3 no mutable defaults, no module-level "
-             "generators/iterators. Together with Python's determinism this is the property's structural core.",
+             "generators/iterators; P5 (= C09-S2) nothing the response decode of a stream is given is left over from an earlier pair. "
+             "Together with Python's determinism this is the property's structural core.",
         note="trusted: CPython ast; call resolution by name over repo classes (over-approximation); a module-level instance of a "
              "repo class is followed through one local alias and through methods that return self, deeper aliasing is not tracked.",
         technique="call-graph reachability + effect (purity) analysis + memoisation capacity check against the static layout model",
@@ -282,7 +288,8 @@ CHECKS = {
         text="Exhaustive evaluation of coherence rules T1-T5 over all 248 structure types, Command/Response and "
              "the 4x117 area tables reconstructed from source, including dict-literal duplicate keys that are "
              "invisible at run time; T6 compares the canonical layout (field order, names, types, widths, "
-             "signedness, valid sets, member names, masks, selector maps, TPM_CC, tables) with pinned/layout.json.",
+             "signedness, valid sets, member names, masks, selector maps, TPM_CC, tables) with pinned/layout.json; T7 the table "
+             "of all types holds one class object per type name.",
         note="trusted: CPython ast; E1 model of tpm_dataclass/tpm_enum/tpm_bitfield, re-validated by guard rules G1-G7 "
              "on every run and cross-checked against runtime reflection at development time (selftest/fidelity.py, "
              "0 mismatches on 718 types). The pinned snapshot was generated from the tree after fixes F1/F7.",
